@@ -96,6 +96,22 @@ func ResourcesUniverse(level string) *Universe {
 		}
 	}
 	simple("sRoot", ent)
+	// a simple resource whose REST methods take query parameters: the only simple-resource calls with a query,
+	// hence the only ones a tunnelling client ever turns into POST
+	{
+		sp := simple("sParams", ent)
+		withParams := map[string][]*Field{
+			"get":            {Opt("viewer", P(String)), Opt("depth", P(Int32))},
+			"update":         {Opt("reason", P(String))},
+			"delete":         {Opt("force", P(Bool)), Opt("tags", ArrayOf(P(String)))},
+			"partial_update": {Opt("note", P(String))},
+		}
+		for _, m := range sp.Methods {
+			if m.Kind == "REST_METHOD" {
+				m.Params = withParams[m.Name]
+			}
+		}
+	}
 	parentC := Segment{Name: "cString", KeyName: "cStringId", KeyType: P(String)}
 	collection("subColl", "subCollId", P(Int64), ent, false, parentC)
 	simple("subSimple", ent, parentC)
